@@ -43,6 +43,15 @@ def gen(ctx):
     zero = [ast.unparse(x) for x in ast.walk(fn) if isinstance(x, ast.Assign) and ast.unparse(x.targets[0]) == "avail_needed"]
     if zero != ["avail_needed = int((self.db.min_avail_gb - self.db.avail_gb) * 2 ** 30)", "avail_needed = 0"]:
         raise T.Untranslatable(f"UNTRANSLATABLE: avail_needed assignments changed: {zero}")
+    # the decision is taken on the free space measured in this very pass: update() refreshes it before it calls update_delete()
+    ub = T.strip_doc(T.find_func(upd, "UpdateableNode.update").body)
+    tops = [ast.unparse(x) for x in ub]
+    if "self.update_free_space()" not in tops or not isinstance(ub[-1], ast.If) or "self.update_delete()" not in [ast.unparse(x) for x in ub[-1].body] \
+            or tops.index("self.update_free_space()") > len(tops) - 2 or ast.unparse(ub[-1]).count("update_free_space") or sum(t.count("update_delete") for t in tops[:-1]):
+        raise T.Untranslatable("UNTRANSLATABLE: UpdateableNode.update no longer measures the free space (update_free_space) before the block that calls update_delete")
+    ufs = ast.unparse(T.find_func(upd, "UpdateableNode.update_free_space"))
+    if "bytes_avail = self.io.bytes_avail(fast=False)" not in ufs or "self.db.update_avail_gb(bytes_avail)" not in ufs:
+        raise T.Untranslatable("UNTRANSLATABLE: update_free_space no longer stores io.bytes_avail() through update_avail_gb")
     # "in record order": the candidate query is ordered by the copy's own id (the model's candidate list is in that order)
     orders = [ast.unparse(x) for x in ast.walk(fn) if isinstance(x, ast.Call) and isinstance(x.func, ast.Attribute) and x.func.attr == "order_by"]
     if len(orders) != 1 or not orders[0].endswith(".order_by(ArchiveFileCopy.id)"):
@@ -222,6 +231,69 @@ def explore(ctx, n=None):
     bad = core.run_cases(ctx, "select", "Corr.C15", "case", "check", terms, shard=250, extra_imports=("Model.Select",))
     for i in bad[:3]:
         ctx.broke("correspondence", f"update_delete: model and implementation differ: case={cases[i][0]} impl batches={cases[i][1]}")
+    explore_passes(ctx, 40 if ctx.quick() else 1500)
+
+
+def explore_passes(ctx, n):
+    """consecutive passes of the real UpdateableNode.update() with a scripted amount of free space that grows by what was deleted:
+    every pass must decide on the space as it is in that pass (none touched once the node is back above its minimum)"""
+    from vf.harness import world as w
+    from alpenhorn.daemon import update as U
+    from alpenhorn.scheduler import FairMultiFIFOQueue
+
+    rng = ctx.rng
+    G = 2 ** 30
+    base = ctx.tmp() / "passes"
+    for k in range(n):
+        root = base / f"r{k % 3}"
+        root.mkdir(parents=True, exist_ok=True)
+        w.fresh_db(host="h1")
+        g = w.mkgroup("g")
+        mn = rng.choice([1, 2, 5])
+        row = w.mknode(None, "n", g, stype="F", host="h1", root=str(root), min_avail_gb=float(mn))
+        acq = w.mkacq("acq")
+        nfiles = rng.randint(2, 7)
+        size = rng.choice([G // 2, G])
+        for i in range(nfiles):
+            f = w.mkfile(acq, f"f{i}", b"")
+            w.ArchiveFile.update(size_b=size).where(w.ArchiveFile.id == f.id).execute()
+            w.mkcopy(row, f, "Y", "M", size_b=size)
+        free = [rng.choice([mn * G - G // 2, mn * G - 3 * G // 2, mn * G - 1, mn * G, mn * G + 5])]
+        stored = rng.choice([free[0], free[0], mn * G + G, 0])  # what an earlier run left in the index may be stale
+        w.StorageNode.update(avail_gb=stored / G).where(w.StorageNode.id == row.id).execute()
+        queue = FairMultiFIFOQueue()
+        un = U.UpdateableNode(queue, w.StorageNode.get(id=row.id))
+        un.io.bytes_avail = lambda fast=False: free[0]
+        deleted_per_pass = []
+
+        def fake_delete(copies, _free=free):
+            # the I/O layer would remove the files; here: record, mark removed, give the space back
+            ids = [c.id for c in copies]
+            deleted_per_pass[-1] += ids
+            for c in copies:
+                _free[0] += c.size_b or 0
+                w.ArchiveFileCopy.update(has_file="N", wants_file="N").where(w.ArchiveFileCopy.id == c.id).execute()
+
+        un.io.delete = fake_delete
+        hist = []
+        for p in range(3):
+            un.db = w.StorageNode.get(id=row.id)
+            before = free[0]
+            deleted_per_pass.append([])
+            un.update()
+            hist.append((before, list(deleted_per_pass[-1])))
+            ctx.count("passes")
+            short = mn * G - before
+            rp = {"family": "passes", "min_avail_gib": mn, "copy_size": size, "copies": nfiles, "stored_avail_bytes_before_first_pass": stored, "passes": [[b, d] for b, d in hist]}
+            got = deleted_per_pass[-1]
+            need = 0 if short <= 0 else -(-short // size)
+            if short <= 0 and got:
+                ctx.fail("C15:sufficient-space-touched", f"pass {p}: {before} bytes free, minimum {mn * G}: removable copies {got} were deleted although free space is sufficient (passes so far: {hist})", rp)
+                break
+            if short > 0 and len(got) != min(need, nfiles - sum(len(d) for _, d in hist[:-1])):
+                ctx.fail("C15:selection", f"pass {p}: {before} bytes free, minimum {mn * G}, copies of {size} bytes: {len(got)} deleted, {need} needed (passes so far: {hist})", rp)
+                break
+        ctx.distinct_add(("passes", mn, size, nfiles, free[0], stored))
 
 
 def search(ctx):
